@@ -117,6 +117,20 @@ class ScriptedBroker(AsyncBroker):
                 await asyncio.sleep(d)
             if ackkind is None:
                 item: Any = data
+            elif ackkind == "future":
+                def fack(i: int = i) -> Any:
+                    # a plain function returning an awaitable that is not a coroutine: the confirmation completes later
+                    fut = loop.create_future()
+
+                    def done() -> None:
+                        self.tr.add("ack", i)
+                        if not fut.done():
+                            fut.set_result(None)
+
+                    loop.call_later(0.05, done)
+                    return fut
+
+                item = AckableMessage(data=data, ack=fack)
             elif ackkind in ("sync", "sync_fail"):
                 def sack(i: int = i, fail: bool = ackkind == "sync_fail") -> None:
                     self.tr.add("ack", i)
